@@ -197,6 +197,14 @@ PROPS["C19"] = {
     "assumptions": [],
 }
 
+PROPS["C11"] = {
+    "level": "proof",
+    "contracts": [("contracts.load", "xdis.load:load_module_from_file_object/escape")],
+    "ground": [("ground.effects", "check_c11")],
+    "bounded": [("ground.fuzz_load", "check")],
+    "assumptions": [],
+}
+
 # ---------------------------------------------------------------------------------------------
 # level texts / notes (MANIFEST)
 _T = {
@@ -228,6 +236,8 @@ _T = {
          "field values are abstract tokens (identity + type): a plumbing proof; types.CodeType is an external constructor modelled by its positional order; a frame condition (no attribute added to the portable object) is part of the contract."),
  "C19": ("Bounded stand-in, not a proof: freeze() of {offset: line} tables for Code2 (2.7), Code3 (3.3, 3.7), Code38 (3.8, 3.9) and Code310 is round-tripped through xdis's line-start routine and through dis.findlinestarts of the matching CPython (2.7, 3.7-3.10): every (offset gap, line gap) pair of representative sets that cross each continuation threshold after one entry, sampled two- to five-step tables, decreasing lines for the signed formats. The three encoders were found defective by this check and repaired (fix: commits); they are not under a deductive contract.",
          "bounded: gaps from fixed representative sets, tables of at most 6 entries; unsigned formats (before 3.8 in xdis's classes) are not exercised with decreasing lines (the format cannot express them; Code3 cannot know whether it serves 3.6/3.7); Code15 proper (1.5) raises AttributeError in freeze() and is outside the property's quantifier."),
+ "C11": ("Exception escape is proved for load_module_from_file_object: for the magic word of every final release, every PyPy magic of the corpus, every other magic in xdis's own tables, the dropbox magics and unknown words, for all file contents of at least 50 bytes (what load_module guarantees) and whatever the code readers do - each external reader may raise an exception of unknown class at its call - the function returns a 7-tuple (or the dropbox decoder's result) or raises ImportError, and closes nothing twice; a frame obligation per function reachable from load_module (151, over an over-approximated call graph) shows no exec/eval/compile/dynamic import/file-system write primitive. Termination, memory and the unmarshaller's own behaviour on corrupt data are covered by a bounded hostile-input sweep (prefixes, byte flips, insertions, adversarial lengths and references, deep nesting, every magic word) under time and address-space limits with CPython audit hooks.",
+         "KeyboardInterrupt/SystemExit not modelled; load_module's size check and open() are assumed to see the same file (no race); RecursionError raised inside the readers is converted to ImportError like any other exception (counts as failing cleanly); static frame analysis recognises primitives by spelling; the unmarshaller's termination on hostile input is bounded evidence only."),
  "C14": ("The integer paths of xdis.marsh are proved for every int of any size: w_long/w_short/w_long64 append exactly the little-endian words that read back (two's complement) to the value; dump_int picks 'i'/'I' by range; dump_long writes 'l', the signed digit count and the 15-bit digits of |x| (loop invariants over a positional-notation spec with an induction lemma: the digits sum back to |x|, top digit non-zero, all digits < 2**15); the fast reader's _r_short/_r_long/_r_long64 are proved to decode the same words. Text, float, complex and container writers/readers are compared with the marshal of hosts 3.8-3.13 by a bounded differential in both directions.",
          "the byte sink is a ghost sequence of everything written through self._write; chr()/str concatenation modelled for code points < 256; load_long's accumulation (x | d << 15 i with symbolic shift) and all non-integer paths are bounded only; bytes-assembly in dumps() is bounded only."),
  "C13": ("write_bytecode_file is proved, for the magic of every final CPython release 1.3-3.13 and all timestamps/source sizes, to write exactly the header that the C06-verified reader decodes back to the same (magic, flags 0, timestamp, size), followed by the marshaller's bytes and nothing else, to the path given, and to close the file; out-of-range header words raise. _Marshaller.dump_code3 is proved to emit the fields of a 3.0-3.10 code object in the order and width of the layout the reader t_code is verified against (C01), and to refuse 3.11+ objects; w_long/w_short/dump_long as in C14. Whether the rewritten file is the same program is judged by the target interpreters (2.7, 3.6-3.13) and by xdis re-reading it, on 13 programs per version: bounded.",
